@@ -427,12 +427,12 @@ def _faulty_open(file, mode, ctx, spec, k):
     elif where.startswith("fab-header"):
         # at (or 5 bytes into) the header line of the k-th later FAB of a binary file: the read that fails is
         # the one looking for the next box, which sequential readers also use to find the end of the file
-        _, k, delta = where.split(":")
+        _, nth, delta = where.split(":")
         with _REAL_OPEN(file, "rb") as fh:
             blob = fh.read()
         starts = [mt.start() for mt in re.finditer(rb"FAB \(\(", blob)][1:]
         if starts:
-            limit = min(starts[int(k) % len(starts)] + int(delta), size - 1)
+            limit = min(starts[int(nth) % len(starts)] + int(delta), size - 1)
         else:
             limit = size // 2
     else:                           # just after the first line (the header line of the first FAB)
@@ -474,6 +474,10 @@ def _sim_open(real_open):
                     return f
             elif ap in ctx.read_fault_paths:
                 fk = ctx.read_fault_paths[ap]
+                if fk.endswith("-ONCE"):
+                    # a transient error: this open fails, the next attempt on the same file succeeds
+                    fk = fk[:-5]
+                    del ctx.read_fault_paths[ap]
                 ctx.faults_fired.append((-1, "read-open", fk, ctx.rel(ap), ctx.actor))
                 ctx.stats[f"fault.read-open.{fk}"] += 1
                 ctx.ev("fault", "read-open", fk, ctx.rel(ap), ctx.actor)
